@@ -53,6 +53,9 @@ pub enum Act {
     OnSessionFin(Vec<u8>),
     /// the control stream's very first bytes are replaced by these (instead of SETTINGS)
     ControlStartsWith(Vec<u8>),
+    /// these bytes precede the CONNECT request (server role) / response (client role) HEADERS on
+    /// the request stream
+    BeforeHeaders(Vec<u8>),
     /// open two uni streams with these bytes each
     UniTwice(Vec<u8>),
     /// open one uni stream with bytes then finish it, it being a critical stream
@@ -123,6 +126,9 @@ pub fn table() -> Vec<Scenario> {
         Scenario { name: "settings-on-session-stream", cite: "RFC 9114 §7.2.4", established: true, roles: BOTH, act: Act::OnSession(valid_settings.clone()), expect: Expect::ConnClose(vec![H3_FRAME_UNEXPECTED]) },
         Scenario { name: "wt-signal-on-session-stream", cite: "draft-ietf-webtrans-http3 §4.2", established: true, roles: BOTH, act: Act::OnSession(h3::wt_bidi_preamble(0)), expect: Expect::ConnClose(vec![H3_FRAME_ERROR, H3_FRAME_UNEXPECTED]) },
         Scenario { name: "grease-and-unknown-capsule-on-session-stream", cite: "RFC 9297 §3.2: unknown capsule types MUST be silently skipped", established: true, roles: BOTH, act: Act::OnSession([h3::frame(h3::grease(6), b"g"), h3::frame(h3::FRAME_DATA, &refcodec::capsule::encode(0x1f * 7 + 0x17, b"cap"))].concat()), expect: Expect::Alive },
+        Scenario { name: "data-before-connect-headers", cite: "RFC 9114 §4.1: a request or response starts with HEADERS; DATA first is H3_FRAME_UNEXPECTED", established: false, roles: BOTH, act: Act::BeforeHeaders(h3::frame(h3::FRAME_DATA, b"early")), expect: Expect::ConnClose(vec![H3_FRAME_UNEXPECTED]) },
+        Scenario { name: "settings-before-connect-headers", cite: "RFC 9114 §7.2.4: SETTINGS on a request stream is H3_FRAME_UNEXPECTED", established: false, roles: BOTH, act: Act::BeforeHeaders(valid_settings.clone()), expect: Expect::ConnClose(vec![H3_FRAME_UNEXPECTED]) },
+        Scenario { name: "grease-and-unknown-before-connect-headers", cite: "RFC 9114 §7.2.8 / §9: reserved and unknown frame types are ignored", established: false, roles: BOTH, act: Act::BeforeHeaders([h3::frame(h3::grease(8), b"g"), h3::frame(h3::FRAME_GOAWAY, &[0])].concat()), expect: Expect::Alive },
         Scenario { name: "session-frame-cut-by-fin-in-header", cite: "RFC 9114 §7.1: a frame truncated by the end of the stream is H3_FRAME_ERROR", established: true, roles: BOTH, act: Act::OnSessionFin(vec![0x40]), expect: Expect::ConnClose(vec![H3_FRAME_ERROR]) },
         Scenario { name: "session-frame-cut-by-fin-in-length", cite: "RFC 9114 §7.1", established: true, roles: BOTH, act: Act::OnSessionFin(vec![0x00, 0x40]), expect: Expect::ConnClose(vec![H3_FRAME_ERROR]) },
         Scenario { name: "session-frame-cut-by-fin-in-payload", cite: "RFC 9114 §7.1", established: true, roles: BOTH, act: Act::OnSessionFin(h3::frame_declared(h3::FRAME_DATA, 20, b"half")), expect: Expect::ConnClose(vec![H3_FRAME_ERROR]) },
@@ -209,7 +215,7 @@ async fn act(live: &mut Live, a: &Act) -> Result<Option<quinn::SendStream>, Stri
             live.sess_send = Some(s);
             r.and(f).map(|_| None)
         }
-        Act::ControlStartsWith(_) => Err("ControlStartsWith is handled at establishment".into()),
+        Act::ControlStartsWith(_) | Act::BeforeHeaders(_) => Err("handled at establishment".into()),
     }
 }
 
@@ -261,6 +267,11 @@ pub async fn run_scenario(sc: &Scenario, role: Role, rep: &mut Report) {
     if let Act::ControlStartsWith(bytes) = &sc.act {
         script.control = bytes.clone();
     }
+    if let Act::BeforeHeaders(bytes) = &sc.act {
+        let mut h = bytes.clone();
+        h.extend(script.headers.clone());
+        script.headers = h;
+    }
     if sc.name == "grease-before-request-headers" {
         let mut h = h3::frame(h3::grease(3), b"before the request");
         h.extend(h3::frame(0x4242, b"unknown before the request"));
@@ -271,7 +282,7 @@ pub async fn run_scenario(sc: &Scenario, role: Role, rep: &mut Report) {
     let mut live = match est {
         Ok(l) => l,
         Err(scen::EstErr::NotEstablished(e)) => {
-            if matches!(sc.act, Act::ControlStartsWith(_)) && !matches!(sc.expect, Expect::Alive) {
+            if matches!(sc.act, Act::ControlStartsWith(_) | Act::BeforeHeaders(_)) && !matches!(sc.expect, Expect::Alive) {
                 // expected failure: classify by what the application saw (LocalH3Error(name))
                 pre_established_reaction = Some(classify_app_error(&e));
                 let r = pre_established_reaction.clone().unwrap();
@@ -290,7 +301,7 @@ pub async fn run_scenario(sc: &Scenario, role: Role, rep: &mut Report) {
             return;
         }
     };
-    let reaction = if matches!(sc.act, Act::ControlStartsWith(_)) || sc.name == "grease-before-request-headers" {
+    let reaction = if matches!(sc.act, Act::ControlStartsWith(_) | Act::BeforeHeaders(_)) || sc.name == "grease-before-request-headers" {
         // established although the control stream was special: observe from here
         observe(&live, None, 7).await
     } else {
